@@ -308,10 +308,12 @@ func (w *kqueue) rm(name string, unwatchFiles bool) error {
 	}
 
 	err := w.register([]int{info.wd}, unix.EV_DELETE, 0)
-	if err != nil {
+	if err != nil && !w.isClosed() {
 		return err
 	}
 
+	// When called from Close() the kqueue itself may be gone already (readEvents
+	// closes it when it exits); the descriptor still has to be closed.
 	unix.Close(info.wd)
 
 	isDir := w.watches.remove(info.wd, name)
